@@ -309,6 +309,13 @@ func TestC12AccessRulesHTTP(t *testing.T) {
 		var addrs []netip.Addr
 		var desc string
 		var lastCode int
+		rt := &countingRT{}
+		p := &proxy.HTTPProxy{
+			Stats:     wire.Stats(),
+			Config:    config.Proxy{},
+			Transport: rt,
+			Lookup:    lookup,
+		}
 		for round := 0; round < rounds; round++ {
 			addrs = []netip.Addr{peer}
 			var xff []string
@@ -328,13 +335,9 @@ func TestC12AccessRulesHTTP(t *testing.T) {
 					xff = append(xff, s)
 				}
 			}
-			rt := &countingRT{}
-			p := &proxy.HTTPProxy{
-				Stats:     wire.Stats(),
-				Config:    config.Proxy{},
-				Transport: rt,
-				Lookup:    lookup,
-			}
+			// one proxy for all requests of the case (as in a running fabio); the upstream
+			// counter is reset per request
+			atomic.StoreInt64(&rt.hits, 0)
 			req := httptest.NewRequest("GET", "http://example.com/x", nil)
 			req.RemoteAddr = remoteAddrString(peer, zone, port)
 			if len(xff) > 0 {
@@ -809,4 +812,87 @@ func sniHello(name string) []byte {
 	b := cc.w.Bytes()
 	n := int(b[3])<<8 | int(b[4])
 	return append([]byte(nil), b[:5+n]...)
+}
+
+// A TCP route with two instances whose access rules differ: the one that admits
+// the peer is down, the one that is up rejects the peer.  However the proxy
+// deals with the failed dial, the rejecting instance's upstream must never see
+// the peer.
+func TestC12TCPInstancesWithDifferentRules(t *testing.T) {
+	var accepts int64
+	up, err := hx.Listen("tcp", "127.0.0.1:0")
+	if err != nil {
+		t.Fatal(err)
+	}
+	defer up.Close()
+	go func() {
+		for {
+			c, err := up.Accept()
+			if err != nil {
+				return
+			}
+			atomic.AddInt64(&accepts, 1)
+			go func(c net.Conn) {
+				defer c.Close()
+				c.Write([]byte("hello-from-upstream"))
+				c.SetReadDeadline(time.Now().Add(2 * time.Second))
+				io.Copy(io.Discard, c)
+			}(c)
+		}
+	}()
+	hx.Check(t, hx.Scale(60, 600), func(t *rapid.T) {
+		dead, err := hx.Listen("tcp", "127.0.0.1:0")
+		if err != nil {
+			t.Skip("no port")
+		}
+		deadAddr := dead.Addr().String()
+		dead.Close() // nothing listens there any more: dials are refused
+		ln, err := hx.Listen("tcp", "127.0.0.1:0")
+		if err != nil {
+			t.Skip("no port")
+		}
+		_, port, _ := net.SplitHostPort(ln.Addr().String())
+		admit := rapid.SampledFrom([]string{"allow=ip:127.0.0.0/8", "deny=ip:10.0.0.0/8", ""}).Draw(t, "admitting-rule")
+		reject := rapid.SampledFrom([]string{"deny=ip:127.0.0.0/8", "allow=ip:10.0.0.0/8", "allow=ip:203.0.113.0/24,ip:::1"}).Draw(t, "rejecting-rule")
+		line := func(dst, opt string) string {
+			s := fmt.Sprintf("route add svc :%s tcp://%s", port, dst)
+			if opt != "" {
+				s += ` opts "` + opt + `"`
+			}
+			return s + "\n"
+		}
+		lines := []string{line(deadAddr, admit), line(up.Addr().String(), reject)}
+		if rapid.Bool().Draw(t, "order") {
+			lines[0], lines[1] = lines[1], lines[0]
+		}
+		tbl, err := route.NewTable(bytes.NewBufferString(lines[0] + lines[1]))
+		if err != nil {
+			t.Fatalf("%v\n%s%s", err, lines[0], lines[1])
+		}
+		lookup := func(h string) *route.Target { return tbl.LookupHost(h, route.Picker["rr"]) }
+		handler := rapid.SampledFrom([]string{"tcp", "dynamic"}).Draw(t, "handler")
+		var h tcp.Handler = &tcp.Proxy{Lookup: lookup, DialTimeout: time.Second}
+		if handler == "dynamic" {
+			h = &tcp.DynamicProxy{Lookup: lookup, DialTimeout: time.Second}
+		}
+		srv := &tcp.Server{Handler: h}
+		go srv.Serve(ln)
+		defer srv.Close()
+		before := atomic.LoadInt64(&accepts)
+		for k, n := 0, rapid.IntRange(2, 6).Draw(t, "connections"); k < n; k++ {
+			c, err := net.Dial("tcp", ln.Addr().String())
+			if err != nil {
+				t.Fatalf("VERIF-INCONCLUSIVE dial: %v", err)
+			}
+			c.SetDeadline(time.Now().Add(5 * time.Second))
+			data, _ := io.ReadAll(c)
+			c.Close()
+			hx.Eval()
+			if len(data) != 0 || atomic.LoadInt64(&accepts) != before {
+				t.Fatalf("connection %d from 127.0.0.1 reached the upstream of an instance whose rule (%s) rejects it (received %q); the instance that admits it (%s) is down\n%s%s", k, reject, data, admit, lines[0], lines[1])
+			}
+		}
+		hx.NonTrivial(fmt.Sprintf("two-instances|%s|%s|%s", admit, reject, handler))
+		hx.Class("tcp:instances-with-different-rules")
+	})
 }
